@@ -160,20 +160,25 @@ func (y *sys) UpdateLastScheduled(ctx context.Context, id scheduler.ID, t time.T
 	return nil
 }
 
-// pickIDs returns real ids 0 < a < b < sentinels realising the worker map wof (model ids 1,2).
+// pickIDs returns increasing real ids (model ids 1..n) that realise the worker map wof on the code's
+// hash distribution, and one sentinel id per worker, larger than all of them.
 func pickIDs(wof []int) (ids map[int]scheduler.ID, sent map[scheduler.ID]int) {
 	ids = map[int]scheduler.ID{}
 	sent = map[scheduler.ID]int{}
-	// model worker index w of id 1 is mapped to whatever real worker the first id hashes to
-	a := uint64(1)
-	wa := workerOf(a)
-	b := a + 1
-	for (workerOf(b) == wa) != (wof[1] == wof[0]) {
-		b++
+	next := uint64(1)
+	w0 := workerOf(next) // the real worker that plays the model worker of id 1
+	for i := range wof {
+		for (workerOf(next) == w0) != (wof[i] == wof[0]) {
+			next++
+		}
+		ids[i+1] = scheduler.ID(next)
+		next++
 	}
-	ids[1], ids[2] = scheduler.ID(a), scheduler.ID(b)
-	need := map[int]bool{0: true, 1: true}
-	for c := b + 1; len(need) > 0; c++ {
+	need := map[int]bool{}
+	for w := 0; w < nWorkers; w++ {
+		need[w] = true
+	}
+	for c := next; len(need) > 0; c++ {
 		if w := workerOf(c); need[w] {
 			sent[scheduler.ID(c)] = w
 			delete(need, w)
